@@ -16,7 +16,7 @@ from simv.tape import Tape
 
 ID = "C02"
 LEVEL = "fault_enumeration"
-QUICK_RUNS = 500
+QUICK_RUNS = 1800
 CHUNK = 8
 RULE = ("seed -> request (as C01); fault sites = every completed position (field or list item) x applicable kinds {raise, raise "
         "library error, exception returned as value, null, value the type cannot complete (bad leaf / non-list / unknown or "
